@@ -371,6 +371,9 @@ type Prop[C any] struct {
 	Run  func(c C, x *Ctx) *Failure
 	// Key overrides the distinctness key (default: JSON of the case)
 	Key func(c C) []byte
+	// Slow multiplies the watchdog limit for properties whose single cases are
+	// long by design (e.g. histories of 17000 decodes)
+	Slow int
 
 	stats *Stats
 }
@@ -383,10 +386,21 @@ type replayFile struct {
 }
 
 var replayers = map[string]func(raw json.RawMessage) *Failure{}
+var replayerSlow = map[string]int{}
+
+// wdBegin marks the start of a guarded call; slow > 1 grants (slow-1) extra watchdog periods.
+func wdBegin(slow int) {
+	t := time.Now()
+	if slow > 1 {
+		t = t.Add(time.Duration(slow-1) * wdLimit)
+	}
+	wdStart.Store(t.UnixNano())
+}
 
 func (p *Prop[C]) init() {
 	if p.stats == nil {
 		p.stats = NewStats(p.ID, p.Name)
+		replayerSlow[p.ID+"/"+p.Name] = p.Slow
 		replayers[p.ID+"/"+p.Name] = func(raw json.RawMessage) *Failure {
 			var c C
 			if err := json.Unmarshal(raw, &c); err != nil {
@@ -426,7 +440,7 @@ func (p *Prop[C]) One(c C) *Failure {
 	writeJournal(p.ID, p.Name, raw)
 
 	x := &Ctx{}
-	wdStart.Store(time.Now().UnixNano())
+	wdBegin(p.Slow)
 	f := p.exec(c, x)
 	wdStart.Store(0)
 
@@ -500,7 +514,7 @@ func RunReplay(t *testing.T) {
 		t.Fatalf("no replayer for %s/%s (registered: %d)", rf.Property, rf.Check, len(replayers))
 	}
 	startWatchdog()
-	wdStart.Store(time.Now().UnixNano())
+	wdBegin(replayerSlow[rf.Property+"/"+rf.Check])
 	f := fn(rf.Case)
 	wdStart.Store(0)
 	if f != nil {
@@ -591,7 +605,7 @@ func (p *Prop[C]) Try(c C) *Failure {
 	if raw, err := json.Marshal(c); err == nil {
 		writeJournal(p.ID, p.Name, raw)
 	}
-	wdStart.Store(time.Now().UnixNano())
+	wdBegin(p.Slow)
 	f := p.exec(c, &Ctx{})
 	wdStart.Store(0)
 	if f == nil {
